@@ -238,7 +238,12 @@ let check (b : block) : verdict list =
     let tbl = Chk_ops.table b n in
     let out = ref [] in
     let nviol = ref 0 in
-    let add v = (match v with Viol _ -> incr nviol | _ -> ()); if List.length !out < 40 then out := v :: !out in
+    (* at most 40 violations and 40 differences are listed per block, counted separately so that a
+       run of model differences cannot crowd out the oracle's verdicts *)
+    let ndiff = ref 0 in
+    let add v = match v with
+      | Viol _ -> incr nviol; if !nviol <= 40 then out := v :: !out
+      | _ -> incr ndiff; if !ndiff <= 40 then out := v :: !out in
     (* `other_model`: ANOTHER model of the same process is paged before and between the lines of this
        block.  Since the repair F21 (finding K2) that must not matter: the model starts from its own
        empty cursor like in every block, the answers are compared exactly and judged by the
@@ -288,8 +293,10 @@ let check (b : block) : verdict list =
         (match e.ans with
          | None -> add (Viol (panic_sig, Printf.sprintf "line [%s] panicked: %s" show e.pmsg))
          | Some a ->
-           if e.flag <> "b" then begin
-             bump "c13_lines"; bump ("c13_answer_" ^ err_code a);
+           (* the probe battery's own lines are judged like every other line (they contain the open
+              range `count v -n..`); only the statistics skip them *)
+           begin
+             if e.flag <> "b" then (bump "c13_lines"; bump ("c13_answer_" ^ err_code a));
              if String.contains a '\n' && first_tok e.line <> "t-wise" then
                add (Viol ("stream:not-a-line", Printf.sprintf "line [%s]: the answer spans several lines" show));
              (match tbl with
@@ -426,7 +433,10 @@ let check_update (b : block) : verdict list =
     let nn = Conv.nat_of_int n in
     let dbg = (find b "profile" = Some ["debug"]) in
     let out = ref [] in
-    let add v = if List.length !out < 20 then out := v :: !out in
+    let nv2 = ref 0 and nd2 = ref 0 in
+    let add v = match v with
+      | Viol _ -> incr nv2; if !nv2 <= 20 then out := v :: !out
+      | _ -> incr nd2; if !nd2 <= 20 then out := v :: !out in
     (* records: line, answer, table after, circuit after *)
     let recs =
       let rec go acc cur = function
